@@ -314,6 +314,8 @@ impl Gen for W {
         W(s.u8())
     }
 }
+/// a bound that mentions `Self` in a type's parameter list (`struct T<A: Bnd<Self>>`): implemented by the generated programs for exactly the intended `Self`
+pub trait Bnd<X: ?Sized> {}
 /// the (non-commutative) result of operator `code` on payloads a, b
 pub fn wop(code: u8, a: u8, b: u8) -> u8 {
     a.wrapping_mul(3).wrapping_add(b).wrapping_add(code)
